@@ -9,8 +9,11 @@
 -/
 import Scico.Proofs.Shape
 import Scico.Proofs.ShapeExt
+import Scico.Proofs.ShapeIdx
 import Scico.Proofs.OpAlgReject
 import Scico.Proofs.OpAlgDtU
+import Scico.Proofs.OpAlgStackTree
+import Scico.Proofs.OpAlgStackDt
 
 namespace Scico.Props.C12
 open Scico.Shape
@@ -90,34 +93,36 @@ theorem C12_collapse_spec (s : NShape) (rest : List NShape) (allow : Bool) :
   ⟨fun d => collapse_stacked_iff s rest allow d, collapse_error_iff s rest allow,
    fun d h => collapse_stacked_size s rest allow d h⟩
 
-/-- FULL STATEMENT, *not claimed as a theorem*: the loop of `indexed_shape` (model `indexedShape`)
-    computes NumPy's basic-indexing shape (`indexSpec`) for every shape and every index tuple with
-    at most one `Ellipsis`.  It is tied exhaustively on small scopes by the check; what is proved
-    is `C12_indexedShape_partial`. -/
-def C12_indexedShape_spec_stmt : Prop :=
-  ∀ (shape : List Nat) (idx : List Idx), (idx.filter (· = .ellipsis)).length ≤ 1 →
-    indexedShape shape idx = indexSpec shape idx
+/-- **`indexed_shape` = NumPy basic indexing.**  The loop of `indexed_shape` (model `indexedShape`:
+    the state `idx_shape, offset, newaxis` exactly as the code updates it) computes the shape NumPy's
+    basic indexing gives (`indexSpec`: consume the axes left to right, `None` inserts a unit axis,
+    `Ellipsis` stands for the axes not consumed by the other entries, missing trailing entries are
+    full slices) for EVERY shape and EVERY index tuple of ints / slices / `None` with at most one
+    `Ellipsis` — including which indices are rejected (out-of-range integer, zero step, too many
+    indices). -/
+theorem C12_indexedShape_spec (shape : List Nat) (idx : List Idx)
+    (h : (idx.filter (· = .ellipsis)).length ≤ 1) :
+    indexedShape shape idx = indexSpec shape idx :=
+  indexedShape_eq_spec shape idx h
 
-/-- proved part: the empty index returns the shape itself, and an index with more integer/slice
-    entries than axes is rejected by the code and by the specification alike -/
-theorem C12_indexedShape_partial (shape : List Nat) :
-    indexedShape shape [] = some shape ∧ indexSpec shape [] = some shape
-    ∧ ∀ idx : List Idx, (idx.filter Idx.consumes).length > shape.length →
-        indexedShape shape idx = none ∧ indexSpec shape idx = none := by
-  refine ⟨?_, ?_, ?_⟩
-  · simp only [indexedShape, List.filter_nil, List.length_nil, indexedLoop]
-    have : ∀ l : List Nat, (l.map some).filterMap id = l := by
-      intro l; induction l with
-      | nil => rfl
-      | cons a l ih => simp [List.filterMap_cons, ih]
-    simp [this]
-  · simp [indexSpec, indexWalk]
-  · intro idx h
-    simp [indexedShape, indexSpec, h]
+/-- what the specification says in the three basic situations (sanity of `indexSpec`): the empty
+    index keeps the shape; one leading `None` prepends a unit axis; one leading in-range integer
+    removes the first axis -/
+theorem C12_indexSpec_basic (n : Nat) (shape : List Nat) (i : Int) (hi : -(n : Int) ≤ i ∧ i < n) :
+    indexSpec (n :: shape) [] = some (n :: shape)
+    ∧ indexSpec (n :: shape) [.newaxis] = some (1 :: n :: shape)
+    ∧ indexSpec (n :: shape) [.int i] = some shape
+    ∧ indexSpec (n :: shape) [.ellipsis] = some (n :: shape) := by
+  refine ⟨by simp [indexSpec, indexWalk], by simp [indexSpec, indexWalk, Idx.consumes], ?_, ?_⟩
+  · have h1 : ¬ (i < -(n : Int) ∨ i > (n : Int) - 1) := by omega
+    simp [indexSpec, indexWalk, List.filter_cons, Idx.consumes, axisLen, h1]
+  · simp [indexSpec, indexWalk, Idx.consumes]
 
 example : indexedShape [3, 4] [.newaxis, .slice ⟨some 0, some 2, none⟩] = some [1, 2, 4] := by decide
 example : indexSpec [3, 4] [.newaxis, .slice ⟨some 0, some 2, none⟩] = some [1, 2, 4] := by decide
 example : indexedShape [2, 3, 4] [.ellipsis, .int (-1)] = some [2, 3] := by decide
+example : indexSpec [2, 3, 4] [.int 1, .ellipsis, .newaxis, .slice ⟨none, none, some (-2)⟩] = some [3, 1, 2] := by decide
+example : indexSpec [2, 3] [.int 0, .int 0, .int 0] = none := by decide
 example : collapseShapes [.plain [2, 3], .plain [2, 3]] true = some (.stacked [2, 2, 3]) := by decide
 example : collapseShapes [.nested [[2], [3]], .nested [[2], [3]]] true = none := by decide
 
@@ -215,6 +220,42 @@ theorem C12_dtype_sound_uniform (dt : DT) (e : LExpr K) (o : Obj K) (hu : Unifor
   · have := hD.ev; rwa [hU.inD, hU.outD] at this
   · have := hD.ad hc; rwa [hU.inD, hU.outD] at this
 
+/-- **Stacks: declared shapes and dtypes.**  For `VerticalStack` / `DiagonalStack` of operator objects
+    that denote matrices (any classes / derived expressions, any number):
+    the vertical stack returns an array of exactly the declared output size = the sum of the operands'
+    output sizes, on the operands' common input space, and its declared output shape is a plain array
+    `(N, *S)` **iff** collapsing was requested and all operands have one plain output shape `S` (a block
+    array otherwise); the diagonal stack's declared sizes are the sums on both sides. -/
+theorem C12_stack_meta (ops : List (Obj K)) (Ds : List (Mx K)) (hA : AllSound ops Ds) :
+    (∀ collapse o, vstack true ops collapse = .ok o →
+        o.md.outShape.size = sumM ops ∧ (∀ o' ∈ ops, o'.md.inShape.size = o.md.inShape.size)
+        ∧ (∀ x : Vc K, (o.eval x).size = o.md.outShape.size)
+        ∧ (o.md.outShape.isNested = false
+            ↔ (isCollapsibleS (ops.map (fun o => o.md.outShape)) && collapse) = true))
+    ∧ (∀ cIn cOut o, dstack true ops cIn cOut = .ok o →
+        o.md.outShape.size = sumM ops ∧ o.md.inShape.size = sumN ops
+        ∧ (∀ x : Vc K, (o.eval x).size = o.md.outShape.size)
+        ∧ (∀ y : Vc K, (o.adj y).size = o.md.inShape.size)) := by
+  constructor
+  · intro collapse o h
+    obtain ⟨hS, hm, hn, hc⟩ := vstack_sound collapse hA h
+    exact ⟨hm, hn, hS.evSz, hc⟩
+  · intro cIn cOut o h
+    obtain ⟨hS, hm, hn⟩ := dstack_sound cIn cOut hA h
+    exact ⟨hm, hn, hS.evSz, hS.adSz⟩
+
+/-- **Stacks: dtypes.**  Operands that declare different input or output dtypes cannot be stacked
+    (both stacks, linear or not, whatever the collapse flags — the check repaired by repo commit
+    d500f6a), and an accepted stack of dtype-sound operands is dtype-sound with no further condition:
+    it returns its declared output dtype and its adjoint returns the declared input dtype. -/
+theorem C12_stack_dtypes (lin : Bool) (ops : List (Obj K)) :
+    (∀ a ∈ ops, ∀ b ∈ ops, (a.md.inDt ≠ b.md.inDt ∨ a.md.outDt ≠ b.md.outDt) → ∀ c1 c2,
+        (∃ k, vstack lin ops c1 = .error k) ∧ (∃ k, dstack lin ops c1 c2 = .error k))
+    ∧ ((∀ o' ∈ ops, DtOk o') →
+        (∀ c o, vstack lin ops c = .ok o → DtOk o) ∧ (∀ c1 c2 o, dstack lin ops c1 c2 = .ok o → DtOk o)) :=
+  ⟨fun a ha b hb hne c1 c2 => stack_reject_mixed_dtypes lin ops a b ha hb hne c1 c2,
+   fun hd => ⟨fun c _ h => vstack_dt lin c hd h, fun c1 c2 _ h => dstack_dt lin c1 c2 hd h⟩⟩
+
 /-- `jax.numpy.result_type` on scico's four dtypes is the join of a lattice: commutative,
     associative, idempotent, with `float32` as bottom — so the declared dtype of a sum does not
     depend on operand order or grouping. -/
@@ -257,6 +298,12 @@ example : ¬ DtAgrees dtMixed := by
   intro h
   have := h.2.2 _ _ _ rfl rfl rfl (Or.inr rfl)
   exact absurd this.1 (by decide)
+
+/-- a real and a complex `MatrixOperator` cannot be stacked -/
+example : ∃ k, buildVStack true [dtM, (.mat 3 3 .c128 (fun _ _ => 1) : LExpr ℚ)] true = .error k :=
+  ⟨_, rfl⟩
+example : ∃ o, buildDStack true [dtM, dtD] true true = .ok o ∧ o.md.inShape = .plain [2, 3]
+    ∧ o.md.outShape = .plain [2, 3] := ⟨_, rfl, rfl, rfl⟩
 
 end dtexamples
 
